@@ -443,6 +443,802 @@ def cases_C05(rng, tier):
                             check=lambda c, o, w=want: None if ("h" + w.hex()) in o else "ciphertext created with other additional data than the Enc_structure"))
     return out
 
+
+# ================================================================= C07
+SHORT_BIGNUM_RE = re.compile(r"g0x[23]\(h(?:[0-9a-f]{2}){0,16}\)")
+
+def f4_family(rng):
+    """tag 2/3 over an indefinite-length byte string of <= 16 bytes (ciborium quirk, finding F4)"""
+    body = rbytes(rng, rng.choice([0, 1, 2, 8, 16]))
+    t = rng.choice([2, 3])
+    inner = bytes([0xc0 + t, 0x5f]) + head(2, len(body)) + body + b"\xff"
+    return inner
+
+def cases_C07(rng, tier):
+    out = []
+    inputs = corpus(rng, Q(tier, 700, 8000))
+    inputs += [(ty, mutate(rng, b)) for ty, b in corpus(rng, Q(tier, 300, 4000))]
+    # non-canonical things whose re-encoding differs from the input
+    for _ in range(Q(tier, 60, 600)):
+        inputs.append(("CoseRecipient", enc(A(B(b""), M(), NULL, A()))))                      # 4-element recipient, empty list
+        inputs.append(("CoseKey", enc(M((I(1), I(2)), (I(4), ('a', [I(x) for x in rng.sample(KOP_REG, 3)]))))))   # key_ops order
+        inputs.append(("Header", enc(M((I(rng.choice([0, 9, -70000])), I(rng.choice(LATTICE)))), rng)))
+        inputs.append(("Value", enc(gen_value(rng, 4), rng)))
+    for ty, b in inputs:
+        out.append(case("dec", ty, b, fam="dec", key=(ty, b)))
+        out.append(case("rt", ty, b, fam="rt", key=(ty, b)))
+        if ty in TAGGED_TYPES:
+            tb = head(6, MSG_TAG[ty]) + b
+            out.append(case("dectag", ty, tb, fam="dec", key=(ty, tb)))
+            out.append(case("rttag", ty, tb, fam="rttag", key=(ty, tb)))
+    for _ in range(Q(tier, 20, 200)):
+        v = f4_family(rng)
+        for ty, b in (("Value", v), ("Header", head(5, 1) + enc(I(99)) + v), ("CoseKey", head(5, 2) + b"\x01\x01" + enc(I(-1)) + v)):
+            out.append(case("dec", ty, b, fam="dec", key=(ty, b)))
+            out.append(case("rt", ty, b, fam="rt-f4", key=(ty, b)))
+    return out
+
+def post_C07(cases, impl):
+    probs = []
+    decs = {}
+    for c, o in zip(cases, impl):
+        if c["fam"] == "dec": decs[c["key"]] = o
+    for c, o in zip(cases, impl):
+        if not c["fam"].startswith("rt"): continue
+        if o.startswith("rej"): continue
+        if re.fullmatch(r"ok [0-9a-f]* T T", o) or o == "ok  T T": continue
+        d = decs.get(c["key"], "")
+        if SHORT_BIGNUM_RE.search(d):
+            c["short_bignum"] = True
+        probs.append((c, o, "decode/encode does not reach a fixed point in one step (decoded: %s)" % d[:160]))
+    return probs
+
+# ================================================================= C08
+def cases_C08(rng, tier):
+    out = []
+    n = Q(tier, 900, 12000)
+    gid = 0
+    for i in range(n):
+        r = rng.random()
+        faults = 0 if r < 0.45 else 1 if r < 0.85 else rng.choice([2, 3])
+        entries = gen_header_entries(rng, 2, faults)
+        m = ('m', entries)
+        gid += 1
+        encs = [enc(m)] + [enc(m, rng) for _ in range(2)]
+        for e in encs:
+            out.append(case("dec", "Header", e, fam="standalone(f=%d)" % faults, group=("hdr", gid)))
+        pos = rng.random()
+        if pos < 0.3:
+            out.append(case("dec", "CoseSign1", enc(A(B(b""), ("raw", encs[1]), NULL, B(b""))), fam="unprotected(f=%d)" % faults))
+        elif pos < 0.6:
+            out.append(case("dec", "CoseSign1", enc(A(B(encs[2]), M(), NULL, B(b""))), fam="protected(f=%d)" % faults))
+        elif pos < 0.7:
+            out.append(case("dec", "ProtectedHeader", encs[1], fam="ProtectedHeader(f=%d)" % faults))
+    # rule interactions: IV / Partial IV in both orders, with other entries around
+    for a, b in (((5, B(b"\x01")), (6, B(b"\x02"))), ((6, B(b"\x02")), (5, B(b"\x01")))):
+        for extra in ([], [(I(4), B(b"k"))], [(T("x"), I(1))]):
+            for posn in range(len(extra) + 1):
+                es = [(I(a[0]), a[1])] + extra[:posn] + [(I(b[0]), b[1])] + extra[posn:]
+                out.append(case("dec", "Header", enc(('m', es)), fam="iv-clash", expect_re=r"err:\w+"))
+    # content-type palette exhaustively
+    for t in CT_TEXT_OK:
+        out.append(case("dec", "Header", enc(M((I(3), T(t)))), fam="content-type-ok", expect_re=r"ok .*"))
+    for t in CT_TEXT_BAD:
+        out.append(case("dec", "Header", enc(M((I(3), T(t)))), fam="content-type-bad", expect_re=r"err:\w+"))
+    return out
+
+def post_groups(cases, impl):
+    """every encoding of one data-model value must give the same outcome"""
+    probs = []; first = {}
+    for c, o in zip(cases, impl):
+        g = c.get("group")
+        if g is None: continue
+        if g in first and norm(first[g][1]) != norm(o):
+            probs.append((c, o, "outcome depends on the encoding: another encoding (%s) gave %s" % (first[g][0]["line"][:120], first[g][1][:160])))
+        first.setdefault(g, (c, o))
+    return probs
+
+# ================================================================= C09
+def cases_C09(rng, tier):
+    out = []
+    gid = 0
+    for _ in range(Q(tier, 500, 6000)):
+        ty = rng.choice(MSG_TYPES)
+        items = gen_msg_items(rng, ty, 2)
+        r = rng.random()
+        if r < 0.45: pass
+        elif r < 0.85: items = fault_msg_items(rng, items)
+        else: items = fault_msg_items(rng, fault_msg_items(rng, items))
+        m = ('a', items)
+        b = enc(m, rng if rng.random() < 0.5 else None)
+        # several types share a shape: decode the same bytes as every type
+        for t2 in MSG_TYPES:
+            out.append(case("dec", t2, b, fam="%s-as-%s" % (ty, t2) if tier != "quick" else "shape:" + t2))
+    # arity sweep 0..7 with every kind in every slot
+    for ty in MSG_TYPES:
+        good = gen_msg_items(rng, ty, 1)
+        for arity in range(0, 8):
+            items = (good + [B(b"")] * 8)[:arity]
+            out.append(case("dec", ty, enc(('a', items)), fam="arity"))
+        for slot in range(len(good)):
+            for wk in WRONG_KINDS:
+                items = list(good); items[slot] = wk
+                out.append(case("dec", ty, enc(('a', items)), fam="slot-kind"))
+        for wk in WRONG_KINDS:
+            out.append(case("dec", ty, enc(wk), fam="not-an-array"))
+    # nested recipients to depth 3 with a fault at the bottom
+    for _ in range(Q(tier, 40, 400)):
+        bad = rng.random() < 0.5
+        leaf = A(B(b""), M(), NULL) if not bad else rng.choice([A(B(b""), M()), A(B(b""), I(1), NULL), A(M(), M(), NULL), A(B(b"\x01"), M(), NULL)])
+        r2 = A(B(b""), M(), NULL, A(leaf)); r1 = A(B(b""), M(), B(b"c"), A(r2))
+        out.append(case("dec", "CoseMac", enc(A(B(b""), M(), NULL, B(b""), A(r1))), fam="nested-recipient",
+                        expect_re=(r"err:\w+" if bad else r"ok .*")))
+        out.append(case("dec", "CoseEncrypt", enc(A(B(b""), M(), NULL, A(r1))), fam="nested-recipient",
+                        expect_re=(r"err:\w+" if bad else r"ok .*")))
+    return out
+
+# ================================================================= C10
+def cases_C10(rng, tier):
+    out = []
+    gid = 0
+    for _ in range(Q(tier, 1200, 15000)):
+        r = rng.random()
+        faults = 0 if r < 0.45 else 1 if r < 0.85 else 2
+        entries = gen_key_entries(rng, faults, kty=rng.random() < 0.92)
+        m = ('m', entries); gid += 1
+        for e in (enc(m), enc(m, rng)):
+            out.append(case("dec", "CoseKey", e, fam="key(f=%d)" % faults, group=("key", gid)))
+    for _ in range(Q(tier, 200, 2500)):
+        ks = [('m', gen_key_entries(rng, 1 if rng.random() < 0.25 else 0)) for _ in range(rng.choice([0, 1, 2, 3]))]
+        out.append(case("dec", "CoseKeySet", enc(('a', ks), rng), fam="keyset"))
+    for wk in WRONG_KINDS:
+        out.append(case("dec", "CoseKeySet", enc(wk), fam="keyset-kind"))
+        out.append(case("dec", "CoseKey", enc(wk), fam="key-kind"))
+        out.append(case("dec", "CoseKeySet", enc(A(M((I(1), I(1))), wk)), fam="keyset-element-kind"))
+    return out
+
+# ================================================================= C18
+def cases_C18(rng, tier):
+    out = []
+    gid = 0
+    for _ in range(Q(tier, 900, 10000)):
+        r = rng.random()
+        faults = 0 if r < 0.5 else 1 if r < 0.88 else 2
+        m = ('m', gen_claims_entries(rng, faults)); gid += 1
+        for e in (enc(m), enc(m, rng)):
+            out.append(case("dec", "ClaimsSet", e, fam="claims(f=%d)" % faults, group=("cwt", gid)))
+    for _ in range(Q(tier, 500, 6000)):
+        fault = rng.random() < 0.5
+        out.append(case("dec", "CoseKdfContext", enc(('a', gen_kdf_items(rng, fault)), rng), fam="kdf(fault=%s)" % fault))
+        out.append(case("dec", "PartyInfo", enc(('a', gen_party_items(rng, fault)), rng), fam="party(fault=%s)" % fault))
+        out.append(case("dec", "SuppPubInfo", enc(('a', gen_supp_items(rng, fault)), rng), fam="supp(fault=%s)" % fault))
+    for ar in range(0, 8):
+        out.append(case("dec", "CoseKdfContext", enc(('a', ([I(1), A(NULL, NULL, NULL), A(NULL, NULL, NULL), A(I(128), B(b""))] + [B(b"x")] * 4)[:ar])), fam="kdf-arity"))
+        out.append(case("dec", "PartyInfo", enc(('a', [NULL] * ar)), fam="party-arity"))
+        out.append(case("dec", "SuppPubInfo", enc(('a', ([I(1), B(b"")] + [B(b"o")] * 6)[:ar])), fam="supp-arity"))
+    for ty in ("ClaimsSet", "PartyInfo", "SuppPubInfo", "CoseKdfContext"):
+        for _ in range(Q(tier, 60, 600)):
+            d = DESC_GEN[ty](rng)
+            want = enc(pyspec.wire_value(ty, d))
+            if ty == "CoseKdfContext":
+                out.append(case("encdec", ty, enc(d), fam="encode:" + ty, expect="ok %s ok enc=%s" % (want.hex(), want.hex())))
+            else:
+                out.append(case("encdec", ty, enc(d), fam="encode:" + ty,
+                                expect="ok %s ok %s" % (want.hex(), pyspec.show(pyspec.assign(ty, d)))))
+    return out
+
+# ================================================================= C11
+def map_keys_distinct(v):
+    """every map inside v has pairwise distinct keys (by data-model value)"""
+    k = v[0]
+    if k == 'm':
+        ks = [enc(a) for a, _ in v[1]]
+        if len(set(ks)) != len(ks): return False
+        return all(map_keys_distinct(a) and map_keys_distinct(b) for a, b in v[1])
+    if k == 'a': return all(map_keys_distinct(x) for x in v[1])
+    if k == 'g': return map_keys_distinct(v[2])
+    if k == 'b':
+        # protected headers are CBOR inside byte strings: look inside when it parses as one map
+        try:
+            inner = dec_all(v[1])
+            if inner[0] == 'm': return map_keys_distinct(inner)
+        except Exception:
+            pass
+    return True
+
+def cases_C11(rng, tier):
+    out = []
+    for ty in DESC_GEN:
+        for _ in range(Q(tier, 70, 900)):
+            d = DESC_GEN[ty](rng)
+            want = enc(pyspec.wire_value(ty, d))
+            def chk(c, o, want=want):
+                if not o.startswith("ok "): return None
+                b = bytes.fromhex(o.split(" ")[1]) if o.split(" ")[1] != "" else b""
+                ok, _ = is_definite(b)
+                if not ok: return "output uses an indefinite length"
+                return None
+            if ty == "CoseKdfContext":
+                out.append(case("encdec", ty, enc(d), fam="encdec:" + ty, expect="ok %s ok enc=%s" % (want.hex(), want.hex()), check=chk))
+            else:
+                out.append(case("encdec", ty, enc(d), fam="encdec:" + ty, check=chk,
+                                expect="ok %s ok %s" % (want.hex(), pyspec.show(pyspec.assign(ty, d)))))
+            if ty in TAGGED_TYPES:
+                out.append(case("enctag", ty, enc(d), fam="enctag:" + ty, expect="ok " + (head(6, MSG_TAG[ty]) + want).hex()))
+    # omission rules field by field: a protected header holding exactly one populated field
+    singles = [d_header(alg=d_reg(1, -7)), d_header(crit=[d_reg(1, 4)]), d_header(ctype=d_reg(1, 50)), d_header(kid=b"k"),
+               d_header(iv=b"i"), d_header(piv=b"p"), d_header(csigs=[d_signature(d_protected(None, D_EMPTY_HEADER), D_EMPTY_HEADER, b"s")]),
+               d_header(rest=[(I(99), I(1))]), d_header(rest=[(T("x"), NULL)]),
+               d_header(csigs=[d_signature(d_protected(None, D_EMPTY_HEADER), D_EMPTY_HEADER, b"s"), d_signature(d_protected(None, d_header(kid=b"q")), D_EMPTY_HEADER, b"t")])]
+    for h in singles:
+        for ty in MSG_TYPES:
+            d = gen_desc_msg(rng, ty)
+            x = list(d[1]); x[0] = d_protected(None, h); d2 = ('a', x)
+            want = enc(pyspec.wire_value(ty, d2))
+            out.append(case("encdec", ty, enc(d2), fam="single-field-protected",
+                            expect="ok %s ok %s" % (want.hex(), pyspec.show(pyspec.assign(ty, d2)))))
+        want = enc(pyspec.header_map(h))
+        out.append(case("encdec", "Header", enc(h), fam="single-field-header", expect="ok %s ok %s" % (want.hex(), pyspec.show(pyspec.assign("Header", h)))))
+    return out
+
+# ================================================================= C12
+def nest_header_positions(rng, hb):
+    """(type, bytes) placing the header map bytes hb at every nesting position"""
+    raw = ("raw", hb)
+    sig_p = A(B(hb), M(), B(b"")); sig_u = A(B(b""), raw, B(b""))
+    rec_p = A(B(hb), M(), NULL); rec_u = A(B(b""), raw, NULL)
+    out = [("Header", hb), ("ProtectedHeader", hb),
+           ("CoseSign1", enc(A(B(hb), M(), NULL, B(b"")))), ("CoseSign1", enc(A(B(b""), raw, NULL, B(b"")))),
+           ("CoseSign", enc(A(B(b""), M(), NULL, A(sig_p)))), ("CoseSign", enc(A(B(b""), M(), NULL, A(sig_u)))),
+           ("CoseSignature", enc(sig_p)), ("CoseSignature", enc(sig_u)),
+           ("CoseMac", enc(A(B(b""), M(), NULL, B(b""), A(rec_p)))), ("CoseMac", enc(A(B(b""), M(), NULL, B(b""), A(rec_u)))),
+           ("CoseEncrypt", enc(A(B(b""), M(), NULL, A(A(B(b""), M(), NULL, A(rec_u)))))),
+           ("CoseEncrypt0", enc(A(B(hb), M(), NULL))), ("CoseMac0", enc(A(B(b""), raw, NULL, B(b"")))),
+           ("CoseRecipient", enc(rec_p)),
+           ("Header", enc(M((I(7), sig_p)))), ("Header", enc(M((I(7), A(sig_u, sig_p))))),
+           ("CoseSign1", enc(A(B(enc(M((I(7), sig_u)))), M(), NULL, B(b"")))),
+           ("SuppPubInfo", enc(A(I(128), B(hb)))), ("CoseKdfContext", enc(A(I(1), A(NULL, NULL, NULL), A(NULL, NULL, NULL), A(I(128), B(hb)))))]
+    return out
+
+def twin_key(rng, k):
+    """another encoding of the same key"""
+    return ("raw", enc(k, rng))
+
+def cases_C12(rng, tier):
+    out = []
+    # decode: otherwise valid maps with one duplicated label at every position pair
+    for _ in range(Q(tier, 300, 4000)):
+        kind = rng.choice(["Header", "Header", "CoseKey", "ClaimsSet"])
+        if kind == "Header": entries = gen_header_entries(rng, 1, 0)
+        elif kind == "CoseKey": entries = gen_key_entries(rng, 0)
+        else: entries = gen_claims_entries(rng, 0)
+        if not entries: entries = [(I(99 if kind != "ClaimsSet" else 8), I(1))]
+        i = rng.randrange(len(entries))
+        k, v = entries[i]
+        # the twin: same label, other encoding, arbitrary value
+        v2 = v if rng.random() < 0.4 else gen_scalar(rng)
+        j = rng.randrange(len(entries) + 1)
+        dup = list(entries); dup.insert(j, (twin_key(rng, k), v2))
+        hb = enc(('m', dup))
+        # both IVs would fail earlier for another reason; skip those
+        labels = [e[0] for e in entries]
+        if kind == "Header":
+            for ty, b in (nest_header_positions(rng, hb) if rng.random() < 0.25 else [("Header", hb)]):
+                # the duplicate comes after a fully valid prefix, or is itself the first occurrence:
+                # the first completed duplicate must be reported as such when everything before it is valid
+                out.append(case("dec", ty, b, fam="dup-decode:" + ty, expect_re=r"err:\w+"))
+            # exact error kind at top level when the twin carries the same (valid) value
+            if v2 == v or j > i:
+                pass
+            out.append(case("dec", "Header", hb, fam="dup-decode-kind", strict_err=True))
+        else:
+            out.append(case("dec", kind, hb, fam="dup-decode:" + kind, expect_re=r"err:\w+", strict_err=True))
+    # the precise kind: maps whose every entry is individually valid -> DuplicateMapKey
+    for _ in range(Q(tier, 300, 3000)):
+        kind = rng.choice(["Header", "CoseKey", "ClaimsSet"])
+        if kind == "Header":
+            entries = [e for e in gen_header_entries(rng, 1, 0) if e[0] not in (('i', 5), ('i', 6))]
+        elif kind == "CoseKey": entries = gen_key_entries(rng, 0)
+        else: entries = gen_claims_entries(rng, 0)
+        if not entries: continue
+        i = rng.randrange(len(entries)); k, v = entries[i]
+        j = rng.randrange(len(entries) + 1)
+        dup = list(entries); dup.insert(j, (twin_key(rng, k), v))
+        out.append(case("dec", kind, enc(('m', dup)), fam="dup-all-valid:" + kind, expect="err:Dup", strict_err=True))
+    # encode: extras repeating a label, or naming a populated / unpopulated standard label
+    def chk_nodup(c, o):
+        if not o.startswith("ok "): return None
+        v = dec_all(bytes.fromhex(o.split(" ")[1]))
+        return None if map_keys_distinct(v) else "encoder emitted a map with a repeated label"
+    for _ in range(Q(tier, 400, 4000)):
+        kind = rng.choice(["Header", "CoseKey", "ClaimsSet", "CoseSign1", "ProtectedHeader"])
+        if kind in ("Header", "CoseSign1", "ProtectedHeader"):
+            h = gen_desc_header(rng, 0)
+            x = list(h[1]); rest = list(x[7][1])
+            mode = rng.random()
+            if mode < 0.4 and rest:
+                rest.insert(rng.randrange(len(rest) + 1), rng.choice(rest))
+            elif mode < 0.8:
+                rest.insert(rng.randrange(len(rest) + 1), A(I(rng.choice([1, 2, 3, 4, 5, 6, 7])), gen_scalar(rng)))
+            else:
+                rest.append(A(T("dup"), I(1))); rest.insert(0, A(T("dup"), I(2)))
+            x[7] = ('a', rest); h2 = ('a', x)
+            if kind == "Header": d = h2
+            elif kind == "ProtectedHeader": d = d_protected(None, h2)
+            else: d = A(d_protected(None, h2) if rng.random() < 0.5 else d_protected(None, D_EMPTY_HEADER), h2 if rng.random() < 0.5 else D_EMPTY_HEADER, NULL, B(b""))
+            out.append(case("enc", kind, enc(d), fam="dup-encode:" + kind, check=chk_nodup, may_panic=False))
+        elif kind == "CoseKey":
+            d = gen_desc_key(rng)
+            x = list(d[1]); params = list(x[5][1])
+            mode = rng.random()
+            if mode < 0.4 and params: params.insert(rng.randrange(len(params) + 1), rng.choice(params))
+            else: params.insert(rng.randrange(len(params) + 1), A(I(rng.choice([1, 2, 3, 4, 5])), gen_scalar(rng)))
+            x[5] = ('a', params)
+            out.append(case("enc", kind, enc(('a', x)), fam="dup-encode:CoseKey", check=chk_nodup))
+        else:
+            d = gen_desc_claims(rng)
+            x = list(d[1]); rest = list(x[7][1])
+            mode = rng.random()
+            if mode < 0.5 and rest: rest.insert(rng.randrange(len(rest) + 1), rng.choice(rest))
+            else: rest.insert(rng.randrange(len(rest) + 1), A(d_reg(1, rng.choice([1, 2, 3, 4, 5, 6, 7])), gen_scalar(rng)))
+            x[7] = ('a', rest)
+            out.append(case("enc", kind, enc(('a', x)), fam="dup-encode:ClaimsSet", check=chk_nodup, claims_dup=True))
+    return out
+
+# ================================================================= C20
+def cases_C20(rng, tier):
+    out = []
+    pool = [I(x) for x in (-1, -2, -3, -4, -24, -25, -256, -257, -65537, 6, 7, 23, 24, 255, 256, 65535, 65536, 2**32, 2**63 - 1, -2**63)] \
+        + [T(t) for t in ("", "a", "b", "aa", "z" * 23, "y" * 24, "é")]
+    def chk_sorted(order):
+        def f(c, o):
+            m = re.fullmatch(r"ok (\S+) ok ([0-9a-f]+)", o)
+            if not m: return "canonicalised key does not encode: %s" % o[:100]
+            v = dec_all(bytes.fromhex(m.group(2)))
+            ks = [enc(k) for k, _ in v[1]]
+            keyf = (lambda e: e) if order == "Lexicographic" else (lambda e: (len(e), e))
+            for a, b in zip(ks, ks[1:]):
+                if not keyf(a) < keyf(b): return "encoded keys not strictly ascending (%s before %s)" % (a.hex(), b.hex())
+            return None
+        return f
+    for _ in range(Q(tier, 500, 6000)):
+        labels = rng.sample(pool, rng.choice([0, 1, 2, 3, 4, 5, 6]))
+        zero = rng.random() < 0.04
+        if zero: labels.insert(rng.randrange(len(labels) + 1), I(0))
+        d = gen_desc_key(rng, extra_labels=labels)
+        for order in ("Lexicographic", "LengthFirstLexicographic"):
+            out.append(case("canon", order, enc(d), fam="canon" + ("-label0" if zero else ""), check=chk_sorted(order),
+                            label_zero=zero, key=enc(d), order=order))
+    # all permutations of a small label set
+    base = [I(-1), I(24), T("a"), I(-257), I(7)]
+    for perm in itertools.permutations(base, Q(tier, 4, 5)):
+        d = gen_desc_key(rng, extra_labels=list(perm))
+        for order in ("Lexicographic", "LengthFirstLexicographic"):
+            out.append(case("canon", order, enc(d), fam="canon-perm", check=chk_sorted(order), key=enc(d), order=order))
+    return out
+
+def post_C20(cases, impl):
+    """same label/value pairs before and after; idempotent; decodes and re-encodes to the same bytes"""
+    probs = []
+    follow = []
+    for c, o in zip(cases, impl):
+        m = re.fullmatch(r"ok (\S+) ok ([0-9a-f]+)", o)
+        if not m: continue
+        before = dec_all(c["key"])          # the description
+        after = parse_show(m.group(1))
+        bx, ax = before[1], after[1]
+        def norm_key(k):   # description -> comparable (ops as set, params as multiset)
+            return (pyspec.show(k[0]), pyspec.show(k[1]), pyspec.show(k[2]), sorted(pyspec.show(x) for x in k[3][1]),
+                    pyspec.show(k[4]), sorted(pyspec.show(x) for x in k[5][1]))
+        if norm_key(bx) != norm_key(ax):
+            probs.append((c, o, "canonicalize changed the key's content"))
+    return probs
+
+def extra_C20(rng, tier):
+    """second phase on the implementation: canonicalise again (no-op) and decode/re-encode"""
+    import runner
+    cs = cases_C20(random_from(rng), "quick")[:400]
+    o1 = runner.run_impl([c["line"] for c in cs])
+    probs = []; lines2 = []; idx = []
+    for c, o in zip(cs, o1):
+        m = re.fullmatch(r"ok (\S+) ok ([0-9a-f]+)", o)
+        if not m: continue
+        d2 = enc(parse_show(m.group(1)))
+        lines2.append("canon %s %s" % (c["order"], d2.hex())); idx.append((c, o, m.group(2)))
+        lines2.append("rt CoseKey %s" % m.group(2)); idx.append((c, o, m.group(2)))
+    o2 = runner.run_impl(lines2)
+    for (c, o, hexb), l2, r2 in zip(idx, lines2, o2):
+        if l2.startswith("canon"):
+            if r2 != o: probs.append(({"line": l2, "fam": "canon-twice", "label_zero": c.get("label_zero")}, r2, "canonicalising twice is not a no-op: first %s" % o[:120]))
+        else:
+            if r2 != "ok %s T T" % hexb:
+                probs.append(({"line": l2, "fam": "canon-rt", "label_zero": c.get("label_zero")}, r2, "canonicalised key does not decode and re-encode to the same bytes"))
+    return {"problems": probs, "coverage": {"second_phase_cases": len(lines2)}}
+
+def random_from(rng):
+    import random
+    return random.Random(rng.random())
+
+# ================================================================= C19 / C06 builder histories
+KEYPARAM_REG = [0, 1, 2, 3, 4, 5]
+CURVES = [0, 1, 2, 3, 4, 5, 6, 7, 8]
+def clo(rng, fail_ok=False):
+    return A(I(1 if (fail_ok and rng.random() < 0.25) else 0), B(rbytes(rng, 2)))
+
+def hb_op(rng):
+    r = rng.randrange(11)
+    if r == 0: return A(T("key_id"), B(rbytes(rng, rng.choice([0, 1, 4]))))
+    if r == 1: return A(T("algorithm"), I(rng.choice(ALG_REG)))
+    if r == 2: return A(T("add_critical"), I(rng.choice(HP_REG)))
+    if r == 3: return A(T("add_critical_label"), rng.choice([d_reg(1, rng.choice(HP_REG)), d_reg(2, rng.choice(TEXT_LABELS))]))
+    if r == 4: return A(T("content_format"), I(rng.choice(CF_REG)))
+    if r == 5: return A(T("content_type"), T(rng.choice(CT_TEXT_OK + CT_TEXT_BAD)))
+    if r == 6: return A(T("iv"), B(rbytes(rng, rng.choice([0, 1, 4]))))
+    if r == 7: return A(T("partial_iv"), B(rbytes(rng, rng.choice([0, 1, 4]))))
+    if r == 8: return A(T("add_counter_signature"), gen_desc_signature(rng, 0))
+    if r == 9: return A(T("value"), I(rng.choice([0, 1, 2, 6, 7, 8, 9, -1, 256, -65537, 2**63 - 1, -2**63, 33])), gen_scalar(rng))
+    return A(T("text_value"), T(rng.choice(TEXT_LABELS)), gen_scalar(rng))
+
+def hdr_arg(rng):
+    return gen_desc_header(rng, 0) if rng.random() < 0.8 else D_EMPTY_HEADER
+
+def builder_ops(rng, bt, n, create_ok=True):
+    ops = []
+    for _ in range(n):
+        if bt == "Header": ops.append(hb_op(rng)); continue
+        r = rng.random()
+        if bt == "CoseSignature":
+            ops.append(rng.choice([A(T("protected"), hdr_arg(rng)), A(T("unprotected"), hdr_arg(rng)), A(T("signature"), B(rbytes(rng)))]))
+        elif bt == "CoseSign1":
+            if r < 0.6: ops.append(rng.choice([A(T("protected"), hdr_arg(rng)), A(T("unprotected"), hdr_arg(rng)), A(T("signature"), B(rbytes(rng))), A(T("payload"), B(rbytes(rng)))]))
+            elif r < 0.8:
+                nm = rng.choice(["create_signature", "try_create_signature"]); ops.append(A(T(nm), B(rbytes(rng)), clo(rng, nm.startswith("try"))))
+            else:
+                nm = rng.choice(["create_detached_signature", "try_create_detached_signature"]); ops.append(A(T(nm), B(rbytes(rng)), B(rbytes(rng)), clo(rng, nm.startswith("try"))))
+        elif bt == "CoseSign":
+            if r < 0.55: ops.append(rng.choice([A(T("protected"), hdr_arg(rng)), A(T("unprotected"), hdr_arg(rng)), A(T("payload"), B(rbytes(rng))), A(T("add_signature"), gen_desc_signature(rng, 0))]))
+            elif r < 0.8:
+                nm = rng.choice(["add_created_signature", "try_add_created_signature"]); ops.append(A(T(nm), gen_desc_signature(rng, 0), B(rbytes(rng)), clo(rng, nm.startswith("try"))))
+            else:
+                nm = rng.choice(["add_detached_signature", "try_add_detached_signature"]); ops.append(A(T(nm), gen_desc_signature(rng, 0), B(rbytes(rng)), B(rbytes(rng)), clo(rng, nm.startswith("try"))))
+        elif bt in ("CoseMac0", "CoseMac"):
+            base = [A(T("protected"), hdr_arg(rng)), A(T("unprotected"), hdr_arg(rng)), A(T("tag"), B(rbytes(rng))), A(T("payload"), B(rbytes(rng)))]
+            if bt == "CoseMac": base.append(A(T("add_recipient"), gen_desc_recipient(rng, 0)))
+            if r < 0.7: ops.append(rng.choice(base))
+            else:
+                nm = rng.choice(["create_tag", "try_create_tag"]); ops.append(A(T(nm), B(rbytes(rng)), clo(rng, nm.startswith("try"))))
+        elif bt in ("CoseEncrypt", "CoseEncrypt0", "CoseRecipient"):
+            base = [A(T("protected"), hdr_arg(rng)), A(T("unprotected"), hdr_arg(rng)), A(T("ciphertext"), B(rbytes(rng)))]
+            if bt != "CoseEncrypt0": base.append(A(T("add_recipient"), gen_desc_recipient(rng, 0)))
+            if r < 0.7: ops.append(rng.choice(base))
+            else:
+                name = rng.choice(["create_ciphertext", "try_create_ciphertext"])
+                if bt == "CoseRecipient":
+                    ops.append(A(T(name), T(rng.choice(list(pyspec.ENC_CTX))), B(rbytes(rng)), B(rbytes(rng)), clo(rng, name.startswith("try"))))
+                else:
+                    ops.append(A(T(name), B(rbytes(rng)), B(rbytes(rng)), clo(rng, name.startswith("try"))))
+        elif bt == "CoseKey":
+            k = rng.randrange(13)
+            if k == 0: ops.append(A(T("new")))
+            elif k == 1: ops.append(A(T("new_okp_key")))
+            elif k == 2: ops.append(A(T("new_symmetric_key"), B(rbytes(rng))))
+            elif k == 3: ops.append(A(T("new_ec2_pub_key"), I(rng.choice(CURVES)), B(rbytes(rng)), B(rbytes(rng))))
+            elif k == 4: ops.append(A(T("new_ec2_pub_key_y_sign"), I(rng.choice(CURVES)), B(rbytes(rng)), rng.choice([TRUE, FALSE])))
+            elif k == 5: ops.append(A(T("new_ec2_priv_key"), I(rng.choice(CURVES)), B(rbytes(rng)), B(rbytes(rng)), B(rbytes(rng))))
+            elif k == 6: ops.append(A(T("kty"), rng.choice([d_reg(1, rng.choice(KTY_REG + [0])), d_reg(2, "k")])))
+            elif k == 7: ops.append(A(T("key_id"), B(rbytes(rng, rng.choice([0, 2])))))
+            elif k == 8: ops.append(A(T("base_iv"), B(rbytes(rng, rng.choice([0, 2])))))
+            elif k == 9: ops.append(A(T("key_type"), I(rng.choice(KTY_REG + [0]))))
+            elif k == 10: ops.append(A(T("algorithm"), I(rng.choice(ALG_REG))))
+            elif k == 11: ops.append(A(T("add_key_op"), I(rng.choice(KOP_REG))))
+            else: ops.append(A(T("param"), I(rng.choice([-1, -2, -3, -4, 0, 1, 2, 3, 4, 5, 6, 7, 100, -65537, 2**63 - 1])), gen_scalar(rng)))
+        elif bt == "ClaimsSet":
+            k = rng.randrange(10)
+            if k < 3: ops.append(A(T(["issuer", "subject", "audience"][k]), T(rng.choice(["a", "", "iss"]))))
+            elif k < 6: ops.append(A(T(["expiration_time", "not_before", "issued_at"][k - 3]), gen_desc_timestamp(rng)))
+            elif k == 6: ops.append(A(T("cwt_id"), B(rbytes(rng))))
+            elif k == 7: ops.append(A(T("claim"), I(rng.choice([-260, -259, -258, -257, 0, 1, 2, 3, 4, 5, 6, 7, 8, 9, 38, 39, 40])), gen_scalar(rng)))
+            elif k == 8: ops.append(A(T("text_claim"), T(rng.choice(TEXT_LABELS)), gen_scalar(rng)))
+            else: ops.append(A(T("private_claim"), I(rng.choice([-65537, -65536, -65535, -70000, 0, 1, 100, -1, -2**63, 2**63 - 1])), gen_scalar(rng)))
+        elif bt == "PartyInfo":
+            ops.append(rng.choice([A(T("identity"), B(rbytes(rng))), A(T("nonce"), rng.choice([B(rbytes(rng)), I(rng.choice([0, -1, 2**63 - 1, -2**63]))])), A(T("other"), B(rbytes(rng)))]))
+        elif bt == "SuppPubInfo":
+            ops.append(rng.choice([A(T("key_data_length"), I(rng.choice([0, 128, 2**64 - 1]))), A(T("protected"), hdr_arg(rng)), A(T("other"), B(rbytes(rng)))]))
+        elif bt == "CoseKdfContext":
+            ops.append(rng.choice([A(T("party_u_info"), gen_desc_party(rng)), A(T("party_v_info"), gen_desc_party(rng)),
+                                   A(T("supp_pub_info"), gen_desc_supp(rng)), A(T("algorithm"), I(rng.choice(ALG_REG))),
+                                   A(T("add_supp_priv_info"), B(rbytes(rng)))]))
+    return ops
+
+BUILDERS = ["Header", "CoseSignature", "CoseSign1", "CoseSign", "CoseMac0", "CoseMac", "CoseRecipient", "CoseEncrypt",
+            "CoseEncrypt0", "CoseKey", "ClaimsSet", "PartyInfo", "SuppPubInfo", "CoseKdfContext"]
+
+def cases_C19(rng, tier):
+    out = []
+    maxlen = Q(tier, 12, 40)
+    for bt in BUILDERS:
+        for _ in range(Q(tier, 150, 1500)):
+            n = rng.choice([0, 1, 2, 3, 4, 6, 8, maxlen])
+            ops = builder_ops(rng, bt, n)
+            out.append(case("build", bt, enc(('a', ops)), fam="history:" + bt, may_panic=True))
+    # documented panics, exact ranges
+    for l in list(range(-3, 12)) + [2**63 - 1, -2**63]:
+        out.append(case("build", "Header", enc(A(A(T("value"), I(l), I(0)))), fam="value-range", may_panic=True,
+                        expect_re=("panic" if 1 <= l <= 7 else r"ok .*")))
+        out.append(case("build", "CoseKey", enc(A(A(T("param"), I(l), I(0)))), fam="param-range", may_panic=True,
+                        expect_re=("panic" if 0 <= l <= 5 else r"ok .*")))
+    for l in [-260, -259, -258, -257, 0, 1, 2, 3, 4, 5, 6, 7, 8, 9, 38, 39, 40]:
+        out.append(case("build", "ClaimsSet", enc(A(A(T("claim"), I(l), I(0)))), fam="claim-range", may_panic=True,
+                        expect_re=("panic" if 1 <= l <= 7 else r"ok .*")))
+    for l in [-65538, -65537, -65536, -65535, 0, 1, -1, 2**63 - 1, -2**63]:
+        out.append(case("build", "ClaimsSet", enc(A(A(T("private_claim"), I(l), I(0)))), fam="private-claim-range", may_panic=True,
+                        expect_re=(r"ok .*" if l < -65536 else "panic")))
+    # IV / Partial IV clearing, in both orders
+    for a, b in (("iv", "partial_iv"), ("partial_iv", "iv")):
+        out.append(case("build", "Header", enc(A(A(T(a), B(b"\x01")), A(T(b), B(b"\x02")))), fam="iv-clears",
+                        check=lambda c, o: None if re.search(r",h02,h,|,h,h02,", o) else "both IV fields populated or wrong one kept"))
+    return out
+
+def cases_C06(rng, tier):
+    out = []
+    for _ in range(Q(tier, 700, 8000)):
+        bt = rng.choice(["CoseSign1", "CoseSign", "CoseMac0", "CoseMac", "CoseEncrypt", "CoseEncrypt0", "CoseRecipient"])
+        aad, pl, k = rbytes(rng), rbytes(rng), rbytes(rng, 2)
+        ph = hdr_arg(rng); uh = hdr_arg(rng)
+        pb = b"" if pyspec.header_empty(ph) else enc(pyspec.header_map(ph))
+        pre = builder_ops(rng, bt, rng.choice([0, 0, 1, 2]))
+        pre = [o for o in pre if o[1][0][1] not in (b"create_signature", b"try_create_signature", b"create_detached_signature",
+               b"try_create_detached_signature", b"add_created_signature", b"try_add_created_signature", b"add_detached_signature",
+               b"try_add_detached_signature", b"create_tag", b"try_create_tag", b"create_ciphertext", b"try_create_ciphertext", b"add_signature")]
+        setup = pre + [A(T("protected"), ph), A(T("unprotected"), uh)]
+        tagged = rng.random() < 0.4 and bt != "CoseRecipient"
+        fail = rng.random() < 0.08
+        c = A(I(1 if fail else 0), B(k))
+        tg = "01" if tagged else "-"
+        detached = rng.random() < 0.4
+        later = [A(T("unprotected"), uh)] if rng.random() < 0.3 else []
+        if bt == "CoseSign1":
+            if detached:
+                ops = [o for o in setup if o[1][0][1] != b"payload"] + [A(T("try_create_detached_signature" if fail or rng.random() < 0.5 else "create_detached_signature"), B(pl), B(aad), c)] + later
+                want_tbs = pyspec.sig_structure("CoseSign1", pb, None, aad, pl)
+                args = (pl, aad)
+            else:
+                ops = setup + [A(T("payload"), B(pl)), A(T("try_create_signature" if fail or rng.random() < 0.5 else "create_signature"), B(aad), c)] + later
+                want_tbs = pyspec.sig_structure("CoseSign1", pb, None, aad, pl); args = (aad,)
+            if fail and ops[-1 - len(later)][1][0][1].startswith(b"create"): fail = False; c = A(I(0), B(k)); ops[-1 - len(later)] = ('a', ops[-1 - len(later)][1][:-1] + [c])
+            exp = "fail" if fail else None
+            out.append(case("buildrt", bt, enc(('a', ops)), tg, *args, fam="sign1" + ("-detached" if detached else ""),
+                            **({"expect": "fail"} if fail else {"check": (lambda cc, o, w=want_tbs, kk=k: None if o.endswith(" %s %s" % ((kk + w).hex(), w.hex())) else "verifier did not receive (signature, to-be-signed bytes given to the signer)")})))
+            if not fail:
+                # perturbed AAD must change what is handed over
+                aad2 = aad + b"\x00"
+                a2 = (pl, aad2) if detached else (aad2,)
+                out.append(case("buildrt", bt, enc(('a', ops)), tg, *a2, fam="sign1-perturbed-aad",
+                                check=(lambda cc, o, w=want_tbs: None if not o.endswith(" " + w.hex()) else "changed AAD gave the same bytes")))
+        elif bt == "CoseSign":
+            nsig = rng.choice([1, 2, 3]); ops = list(setup)
+            ops = [o for o in ops if not (detached and o[1][0][1] == b"payload")]
+            if not detached: ops.append(A(T("payload"), B(pl)))
+            sps = []
+            for i in range(nsig):
+                sph = hdr_arg(rng); spb = b"" if pyspec.header_empty(sph) else enc(pyspec.header_map(sph))
+                sg = d_signature(d_protected(None, sph), hdr_arg(rng), b"")
+                ki = rbytes(rng, 2); sps.append((spb, ki))
+                if detached: ops.append(A(T(rng.choice(["add_detached_signature", "try_add_detached_signature"])), sg, B(pl), B(aad), A(I(0), B(ki))))
+                else: ops.append(A(T(rng.choice(["add_created_signature", "try_add_created_signature"])), sg, B(aad), A(I(0), B(ki))))
+            w = rng.randrange(nsig)
+            want_tbs = pyspec.sig_structure("CoseSignature", pb, sps[w][0], aad, pl)
+            args = (bytes([w]), pl, aad) if detached else (bytes([w]), aad)
+            out.append(case("buildrt", bt, enc(('a', ops)), tg, *args, fam="sign" + ("-detached" if detached else ""),
+                            check=(lambda cc, o, wt=want_tbs, kk=sps[w][1]: None if o.endswith(" %s %s" % ((kk + wt).hex(), wt.hex())) else "verifier did not receive (signature, to-be-signed bytes given to that signer)")))
+        elif bt in ("CoseMac0", "CoseMac"):
+            ops = setup + [A(T("payload"), B(pl)), A(T("try_create_tag" if fail or rng.random() < 0.5 else "create_tag"), B(aad), c)] + later
+            if fail and ops[-1 - len(later)][1][0][1] == b"create_tag": fail = False
+            want = pyspec.mac_structure(bt, pb, aad, pl)
+            out.append(case("buildrt", bt, enc(('a', ops)), tg, aad, fam=bt,
+                            **({"expect": "fail"} if fail else {"check": (lambda cc, o, w=want, kk=k: None if o.endswith(" %s %s" % ((kk + w).hex(), w.hex())) else "verify did not receive (tag, to-be-MACed bytes given at creation)")})))
+        else:
+            ctx = bt if bt != "CoseRecipient" else rng.choice(["EncRecipient", "MacRecipient", "RecRecipient"])
+            name = "try_create_ciphertext" if fail or rng.random() < 0.5 else "create_ciphertext"
+            if bt == "CoseRecipient":
+                ops = setup + [A(T(name), T(ctx), B(pl), B(aad), c)] + later; args = (tstr(ctx), aad)
+            else:
+                ops = setup + [A(T(name), B(pl), B(aad), c)] + later; args = (aad,)
+            want = pyspec.enc_structure(ctx, pb, aad)
+            ct = k + bytes([len(pl) % 256]) + pl + want
+            out.append(case("buildrt", bt, enc(('a', ops)), tg, *args, fam=bt,
+                            **({"expect": "fail"} if fail else {"check": (lambda cc, o, w=want, ctt=ct: None if o.endswith(" %s %s" % (ctt.hex(), w.hex())) else "decrypt did not receive (ciphertext, additional data given at creation)")})))
+    return out
+
+# ================================================================= C02
+def desc_slots(ty, v):
+    """all retained protected byte strings in a reflected (shown) message, in document order"""
+    out = []
+    def prot(p):
+        od, h = p[1]
+        out.append(od[1] if od[0] == 'b' else None); hdr(h)
+    def hdr(h):
+        for sgn in h[1][6][1]: sig(sgn)
+    def sig(sg):
+        prot(sg[1][0]); hdr(sg[1][1])
+    def rec(r):
+        prot(r[1][0]); hdr(r[1][1])
+        for x in r[1][3][1]: rec(x)
+    x = v[1]
+    if ty == "Header": hdr(v)
+    elif ty == "CoseSignature": sig(v)
+    elif ty in ("CoseSign1", "CoseMac0", "CoseEncrypt0"): prot(x[0]); hdr(x[1])
+    elif ty == "CoseSign":
+        prot(x[0]); hdr(x[1])
+        for sg in x[3][1]: sig(sg)
+    elif ty == "CoseMac":
+        prot(x[0]); hdr(x[1])
+        for r in x[4][1]: rec(r)
+    elif ty == "CoseEncrypt":
+        prot(x[0]); hdr(x[1])
+        for r in x[3][1]: rec(r)
+    elif ty == "CoseRecipient": rec(v)
+    elif ty == "SuppPubInfo": prot(x[1])
+    return out
+
+def cases_C02(rng, tier):
+    out = []
+    gid = 0
+    for _ in range(Q(tier, 250, 3000)):
+        entries = gen_header_entries(rng, 1, 0)
+        m = ('m', entries)
+        shuffled = list(entries); rng.shuffle(shuffled)
+        encs = [enc(m), enc(m, rng), enc(m, rng), enc(('m', shuffled), rng)]
+        if not entries: encs += [b"", b"\xa0", b"\xbf\xff"]
+        gid += 1
+        inner_p = rng.choice(encs)
+        for p in encs:
+            carriers = [
+                ("CoseSign1", A(B(p), M(), B(b"pl"), B(b"sg")), [p]),
+                ("CoseMac0", A(B(p), M(), B(b"pl"), B(b"tg")), [p]),
+                ("CoseEncrypt0", A(B(p), M(), B(b"ct")), [p]),
+                ("CoseSign", A(B(p), M(), B(b"pl"), A(A(B(inner_p), M(), B(b"s1")), A(B(p), M(), B(b"s2")))), [p, inner_p, p]),
+                ("CoseEncrypt", A(B(inner_p), M(), B(b"ct"), A(A(B(p), M(), NULL, A(A(B(inner_p), M(), NULL))))), [inner_p, p, inner_p]),
+                ("CoseMac", A(B(p), M(), B(b"pl"), B(b"t"), A(A(B(inner_p), M(), NULL))), [p, inner_p]),
+                ("CoseSign1", A(B(inner_p), M((I(7), A(B(p), M(), B(b"cs")))), NULL, B(b"")), [inner_p, p]),
+                ("CoseSign1", A(B(enc(M((I(7), A(A(B(p), M(), B(b"c1")), A(B(inner_p), M(), B(b"c2"))))))), M(), NULL, B(b"")), None),
+                ("SuppPubInfo", A(I(128), B(p)), [p]),
+                ("CoseSignature", A(B(p), M((I(7), A(B(inner_p), M((I(7), A(B(p), M(), B(b"")))), B(b"")))), B(b"")), [p, inner_p, p]),
+            ]
+            ty, v, slots = rng.choice(carriers)
+            b = enc(v, None if rng.random() < 0.5 else rng)
+            def chk(c, o, ty=ty, slots=slots):
+                if slots is None or not o.startswith("ok "): return None
+                got = desc_slots(ty, parse_show(o[3:]))
+                it = iter(got)     # the header content may itself nest further protected headers
+                return None if all(any(x == sl for x in it) for sl in slots) else "retained protected bytes %s differ from the wire bytes %s" % (
+                    [x.hex() if x is not None else None for x in got], [x.hex() for x in slots])
+            out.append(case("dec", ty, b, fam="retained:" + ty, check=chk))
+            # re-encoding writes the same bytes back
+            def chk_rt(c, o, slots=slots):
+                if slots is None or not o.startswith("ok "): return None
+                b1 = bytes.fromhex(o.split(" ")[1])
+                for sl in slots:
+                    if (head(2, len(sl)) + sl) not in b1: return "re-encoding does not contain the protected bytes %s" % sl.hex()
+                return None
+            out.append(case("rt", ty, b, fam="reencoded:" + ty, check=chk_rt))
+            # parsed view identical for every encoding of the same content
+            out.append(case("dec", "CoseSign1", enc(A(B(p), M(), NULL, B(b""))), fam="parsed-view", group=("view", gid),
+                            view=True))
+            # and what is signed / MACed / encrypted uses those bytes
+            aad = rbytes(rng)
+            out.append(case("helperhex", "sign1.tbs_data", enc(A(B(p), M(), B(b"pl"), B(b"sg"))), aad, fam="tbs-uses-wire-bytes",
+                            expect="ok " + pyspec.sig_structure("CoseSign1", p, None, aad, b"pl").hex()))
+            out.append(case("helperhex", "mac0.verify_tag", enc(A(B(p), M(), B(b"pl"), B(b"tg"))), aad, fam="tbm-uses-wire-bytes",
+                            expect="ok 7467 " + pyspec.mac_structure("CoseMac0", p, aad, b"pl").hex()))
+            out.append(case("helperhex", "encrypt0.decrypt", enc(A(B(p), M(), B(b"ct"))), aad, fam="aad-uses-wire-bytes",
+                            expect="ok 6374 " + pyspec.enc_structure("CoseEncrypt0", p, aad).hex()))
+            out.append(case("helperhex", "sign.verify_signature", enc(A(B(inner_p), M(), B(b"pl"), A(A(B(p), M(), B(b"s1"))))), b"\x00", aad,
+                            fam="signer-uses-wire-bytes", expect="ok 7331 " + pyspec.sig_structure("CoseSignature", inner_p, p, aad, b"pl").hex()))
+    # builders drop retained bytes
+    for _ in range(Q(tier, 40, 400)):
+        h = gen_desc_header(rng, 0)
+        want = "h" if pyspec.header_empty(h) else "h" + enc(pyspec.header_map(h)).hex()
+        ops = [A(T("protected"), h), A(T("payload"), B(b"p"))]
+        out.append(case("build", "CoseSign1", enc(('a', ops)), fam="builder-protected-has-no-wire-bytes",
+                        check=lambda c, o: None if o.startswith("ok [[N,") else "builder-made protected header carries original_data"))
+    return out
+
+def post_C02(cases, impl):
+    probs = []; first = {}
+    for c, o in zip(cases, impl):
+        if not c.get("view") or not o.startswith("ok "): continue
+        v = parse_show(o[3:])
+        hv = v[1][0][1][1]                     # the parsed header of the protected slot
+        # extra parameters are kept in wire order (C08), so a reordered map legitimately reorders
+        # them: compare typed fields exactly and the extras as a multiset
+        view = pyspec.show(('a', hv[1][:7])) + "|" + ",".join(sorted(pyspec.show(x) for x in hv[1][7][1]))
+        g = c["group"]
+        if g in first and first[g][0] != view:
+            probs.append((c, o, "parsed view of the protected header depends on its encoding: %s vs %s" % (first[g][0][:120], view[:120])))
+        first.setdefault(g, (view, c))
+    return probs
+
+# ================================================================= C01
+def nested_header(d):
+    inner = b"\xa0"
+    for _ in range(d):
+        inner = b"\xa1\x07\x83" + head(2, len(inner)) + inner + b"\xa0\x40"
+    return inner
+
+def helper_calls(rng, ty, b):
+    aad = rbytes(rng)
+    if ty == "CoseSign1":
+        return [("sign1.tbs_data", (aad,), True), ("sign1.verify_signature", (aad,), True)]
+    if ty == "CoseMac0": return [("mac0.verify_tag", (aad,), None)]
+    if ty == "CoseMac": return [("mac.verify_tag", (aad,), None)]
+    if ty == "CoseEncrypt": return [("encrypt.decrypt", (aad,), None)]
+    if ty == "CoseEncrypt0": return [("encrypt0.decrypt", (aad,), None)]
+    if ty == "CoseRecipient": return [("recipient.decrypt", (tstr("EncRecipient"), aad), None)]
+    return []
+
+def cases_C01(rng, tier):
+    out = []
+    types = [t for t in ALL_TYPES]
+    # exhaustive short strings
+    for ty in types:
+        for n in range(256):
+            out.append(case("dec", ty, bytes([n]), fam="exhaustive-1"))
+        out.append(case("dec", ty, b"", fam="exhaustive-0"))
+    two = [bytes([a, b]) for a in range(256) for b in range(256)]
+    if tier == "quick":
+        for ty in types:
+            for b in rng.sample(two, 250): out.append(case("dec", ty, b, fam="sample-2"))
+    else:
+        for ty in types:
+            for b in two: out.append(case("dec", ty, b, fam="exhaustive-2"))
+    for ty in TAGGED_TYPES:
+        for n in range(256): out.append(case("dectag", ty, bytes([0xd8 if MSG_TAG[ty] > 23 else 0xc0 + MSG_TAG[ty]]) + ([bytes([MSG_TAG[ty]])] if MSG_TAG[ty] > 23 else [b""])[0] + bytes([n]), fam="tagged-exhaustive-1"))
+    # structured + mutated, every accepted value re-encoded / cloned / compared / handed to helpers
+    base = corpus(rng, Q(tier, 500, 6000))
+    for ty, b in base:
+        for bb in (b, mutate(rng, b), mutate(rng, mutate(rng, b))):
+            out.append(case("dec", ty, bb, fam="structured"))
+            out.append(case("rt", ty, bb, fam="structured-reencode"))
+            for fn, args, _ in helper_calls(rng, ty, bb):
+                # documented preconditions are the model's: a panic is accepted only where the model panics too
+                out.append(case("helperhex", fn, bb, *args, fam="helper-on-decoded", panic_ok_if_model=True))
+            if ty == "CoseSign":
+                aad = rbytes(rng)
+                out.append(case("helperhex", "sign.verify_signature", bb, b"\x00", aad, fam="helper-on-decoded", panic_ok_if_model=True))
+                out.append(case("helperhex", "sign.tbs_data", bb, aad, b"\x01", fam="helper-on-decoded", panic_ok_if_model=True))
+    # arity / emptiness guards
+    for ty in MSG_TYPES + ["PartyInfo", "SuppPubInfo", "CoseKdfContext"]:
+        for ar in range(0, 8):
+            out.append(case("dec", ty, enc(('a', [B(b"")] * ar)), fam="arity"))
+            out.append(case("dec", ty, enc(('a', [M()] * ar)), fam="arity"))
+    for v in (A(), A(A()), A(I(1)), A(B(b"")), A(B(b""), M()), A(A(), A())):
+        out.append(case("dec", "Header", enc(M((I(7), v))), fam="countersig-shape"))
+    # CBOR nesting around ciborium's limit, declared-length bombs
+    for d in (254, 255, 256, 257, 258, 300):
+        for opener, closer in ((b"\x81", b"\x00"), (b"\xa1\x00", b"\x00"), (b"\xc1", b"\x00"), (b"\x9f", b"\x00" + b"\xff" * d), (b"\x5f", b"\x40" + b"\xff" * d)):
+            b = opener * d + closer
+            for ty in ("Value", "Header", "CoseSign1", "CoseKey"):
+                out.append(case("dec", ty, b, fam="cbor-nesting"))
+    for b in (b"\x9b" + b"\xff" * 8, b"\x5b" + b"\xff" * 8 + b"\x00", b"\xbb" + b"\x7f" + b"\xff" * 7, b"\x7b" + b"\x00" * 7 + b"\x10" + b"a",
+              b"\x9a\xff\xff\xff\xff" + b"\x00" * 50, b"\xbf", b"\x9f", b"\x5f", b"\x5f\x5f\x5f", b"\xc2\x5f", b"\xc2\x50" + b"\xff" * 16, b"\xc3\x50" + b"\xff" * 16):
+        for ty in ("Value", "Header", "CoseSign1", "CoseKey", "ClaimsSet", "CoseKdfContext"):
+            out.append(case("dec", ty, b, fam="length-bomb"))
+    # protected headers nested through counter-signatures (finding F1, repaired): model up to 40
+    for d in list(range(0, 24)) + [30, 40]:
+        b = nested_header(d)
+        out.append(case("dec", "Header", b, fam="protected-nesting"))
+        out.append(case("dec", "CoseSign1", enc(A(B(b), M(), NULL, B(b""))), fam="protected-nesting"))
+    for d in (100, 1000, 5000) + ((20000, 100000) if tier != "quick" else ()):
+        b = nested_header(d)
+        out.append(case("dec", "Header", b, fam="protected-nesting-deep", impl_only=True, expect_re=r"err:\w+"))
+        out.append(case("dec", "CoseSign1", enc(A(B(b), M(), NULL, B(b""))), fam="protected-nesting-deep", impl_only=True, expect_re=r"err:\w+"))
+    for n in ((1 << 16), (1 << 20)) + (((1 << 24),) if tier != "quick" else ()):
+        big = head(2, n) + bytes(n)
+        out.append(case("dec", "Value", big, fam="large-input", impl_only=True, expect_re=r"ok .*"))
+        out.append(case("dec", "CoseSign1", enc(A(B(b""), M(), ("raw", big), B(b""))), fam="large-input", impl_only=True, expect_re=r"ok .*"))
+        out.append(case("dec", "Header", head(4, 23) * 1 + bytes(n), fam="large-input", impl_only=True, expect_re=r"err:\w+"))
+    return out
 # ================================================================= registry
 PROPS = {}
 def reg(pid, gen, **kw):
@@ -450,6 +1246,18 @@ def reg(pid, gen, **kw):
 reg("C03", cases_C03, post=post_injective)
 reg("C04", cases_C04, post=post_injective)
 reg("C05", cases_C05, post=post_injective)
+reg("C07", cases_C07, post=post_C07)
+reg("C08", cases_C08, post=post_groups)
+reg("C09", cases_C09)
+reg("C10", cases_C10, post=post_groups)
+reg("C18", cases_C18, post=post_groups)
+reg("C11", cases_C11)
+reg("C12", cases_C12)
+reg("C20", cases_C20, post=post_C20, extra=extra_C20)
+reg("C19", cases_C19)
+reg("C06", cases_C06)
+reg("C01", cases_C01, threaded=True)
+reg("C02", cases_C02, post=post_C02)
 reg("C13", cases_C13, post=post_C13)
 reg("C14", cases_C14, post=post_C14)
 reg("C15", cases_C15)
